@@ -96,6 +96,7 @@ void runScenario(const QJsonObject &scn)
     const int nmsg = scn["msgs"].toInt(5);
     const bool heap = scn["heapctx"].toBool();
     const bool gated = scn["gate"].toBool();
+    const int fatalEvery = scn["fatalEvery"].toInt(0);   // every n-th message of a producer is a fatal one (0 = none)
     g_jitter = scn["jitter"].toInt(0);
     g_seed = unsigned(scn["seed"].toInt(1));
     t_rngInit = false;
@@ -115,7 +116,7 @@ void runScenario(const QJsonObject &scn)
     std::unique_ptr<OwnThreadHandler<Pipeline>> bare;
     if (useLogger) {
         logger.reset(new Logger);
-        *logger << probes.enter() << SeqNumberAttrPtr::create() << probes.sink() << probes.exit();
+        *logger << probes.enter() << SeqNumberAttrPtr::create() << probes.sink() << probes.exit() << probes.flushProbe();
         logger->installMessageHandler();
     } else {
         bare.reset(new OwnThreadHandler<Pipeline>);
@@ -207,7 +208,8 @@ void runScenario(const QJsonObject &scn)
                 const std::string file = "src/" + me + "/file" + std::to_string(i % 3) + ".cpp";
                 const std::string func = "void " + me + "::work" + std::to_string(i) + "(int)";
                 const std::string cat = (i % 4 == 0) ? "default" : ("cat." + me);
-                const QtMsgType type = QtMsgType((p + i) % 3 == 0 ? QtWarningMsg : (i % 2 ? QtDebugMsg : QtInfoMsg));
+                static const QtMsgType kinds[5] = { QtWarningMsg, QtDebugMsg, QtInfoMsg, QtCriticalMsg, QtDebugMsg };
+                const QtMsgType type = (fatalEvery > 0 && i % fatalEvery == 0) ? QtFatalMsg : kinds[(p + i) % 5];
                 const int line = 100 * p + i;
                 const bool nullCtx = !useLogger && (i % 5 == 3);     // (QMessageLogger insists on a category)
                 QJsonObject f;
@@ -233,7 +235,9 @@ void runScenario(const QJsonObject &scn)
                                   const QByteArray u = tx.toUtf8();
                                   if (ty == QtDebugMsg) ml.debug("%s", u.constData());
                                   else if (ty == QtInfoMsg) ml.info("%s", u.constData());
-                                  else ml.warning("%s", u.constData());
+                                  else if (ty == QtWarningMsg) ml.warning("%s", u.constData());
+                                  else if (ty == QtCriticalMsg) ml.critical("%s", u.constData());
+                                  else Logger::messageHandler(ty, ctx, tx);   // what Qt calls for qFatal(), without its abort()
                               } else {
                                   LogMessage lm(ty, ctx, tx);
                                   bare->process(lm);
